@@ -420,7 +420,8 @@ class IntroVisitorIndirect(ast.NodeVisitor):
             # Just handling functions, not modules.
             # Handling modules is more complicated (requires tracing the full call) and it can be easily worked around
             # by directly importing the function.
-            if isinstance(obj, (FunctionType,)):
+            # (A class that is referred to by name is followed like a function, as in the main analysis.)
+            if isinstance(obj, (FunctionType,)) or inspect.isclass(obj):
                 # Building a fake AST node to handle functions called without arguments. They may not
                 # _logger.debug(f"visit_name: {node} {pformat(node)} {self._store_names}")
                 # No arg given
